@@ -68,9 +68,9 @@ class MulLinearOperator(LinearOperator):
             n = self.size(-1)
             m = rhs.size(-1)
             # Now implement the formula (A . B) v = diag(A D_v B)
-            left_res = left_res.view(*output_batch_shape, n, rank * m)
+            left_res = left_res.reshape(*output_batch_shape, n, rank * m)
             left_res = self.right_linear_op._matmul(left_res)
-            left_res = left_res.view(*output_batch_shape, n, rank, m)
+            left_res = left_res.reshape(*output_batch_shape, n, rank, m)
             res = left_res.mul_(left_root.unsqueeze(-1)).sum(-2)
         # This is the case where we're not doing a root decomposition, because the matrix is too small
         else:  # Dead?
@@ -107,8 +107,8 @@ class MulLinearOperator(LinearOperator):
             left_factor = left_vecs.unsqueeze(-2) * self.right_linear_op.to_dense().unsqueeze(-1)
             right_factor = right_vecs.unsqueeze(-2) * eye.unsqueeze(-1)
 
-        left_factor = left_factor.view(*batch_shape, n, num_vecs * right_rank)
-        right_factor = right_factor.view(*batch_shape, n, num_vecs * right_rank)
+        left_factor = left_factor.reshape(*batch_shape, n, num_vecs * right_rank)
+        right_factor = right_factor.reshape(*batch_shape, n, num_vecs * right_rank)
         left_deriv_args = self.left_linear_op._bilinear_derivative(left_factor, right_factor)
 
         if isinstance(self.left_linear_op, RootLinearOperator):
@@ -122,8 +122,8 @@ class MulLinearOperator(LinearOperator):
             left_factor = left_vecs.unsqueeze(-2) * self.left_linear_op.to_dense().unsqueeze(-1)
             right_factor = right_vecs.unsqueeze(-2) * eye.unsqueeze(-1)
 
-        left_factor = left_factor.view(*batch_shape, n, num_vecs * left_rank)
-        right_factor = right_factor.view(*batch_shape, n, num_vecs * left_rank)
+        left_factor = left_factor.reshape(*batch_shape, n, num_vecs * left_rank)
+        right_factor = right_factor.reshape(*batch_shape, n, num_vecs * left_rank)
         right_deriv_args = self.right_linear_op._bilinear_derivative(left_factor, right_factor)
 
         return tuple(list(left_deriv_args) + list(right_deriv_args))
